@@ -315,6 +315,14 @@ def random_lists(r, N, k):
     return [r.shuffle([j for j in range(N) if j != i])[:k] for i in range(N)]
 
 
+def with_ids(r, line, N):
+    """the iterator range holds item ids: a shuffled subset of a larger id space (3 of 4 cases), so that positions in the
+    range and items differ; all data stay positional and the callbacks translate ids back (harness: IdMap)"""
+    if r.chance(1, 4):
+        return line
+    return line + " ids=" + ",".join(map(str, r.shuffle(list(range(3 * N + 5)))[:N]))
+
+
 def spe_line(N, d, g, k, nup, T, tol, seed, nb, dm, y0, unif, mode):
     s = "spe N=%d d=%d g=%d k=%d nup=%d T=%d tol=%s seed=%d mode=%s" % (N, d, g, k, nup, T, fr(tol), seed, mode)
     if not g:
@@ -370,7 +378,7 @@ def gen_idx_case(r, quick):
     edge = [Fraction(0), Fraction(63, 64), Fraction(1, 2), Fraction(1, 64)]
     unif = [] if g else [(r.choice(edge) if r.chance(1, 5) else Fraction(r.below(64), 64)) for _ in range(iters * nupc)]
     y0 = [[Fraction(r.below(9), 8)] for _ in range(N)]
-    return spe_line(N, 1, g, k, nup, T, Fraction(1, 8), seed, nb, small_dm(r, N), y0, unif, "idx")
+    return with_ids(r, spe_line(N, 1, g, k, nup, T, Fraction(1, 8), seed, nb, small_dm(r, N), y0, unif, "idx"), N)
 
 
 # vectors whose norm D satisfies D + tol = power of two (so that every quotient of the update is exact)
@@ -444,7 +452,7 @@ def gen_approx_case(r, quick):
     y0 = [[Fraction(r.below(65), 64) for _ in range(d)] for _ in range(N)]
     nupc = min(nup, N // 2)
     unif = [] if g else [Fraction(r.below(64), 64) for _ in range(T * nupc)]
-    return spe_line(N, d, g, k, nup, T, tol, r.below(1 << 31), nb, dm, y0, unif, "approx")
+    return with_ids(r, spe_line(N, d, g, k, nup, T, tol, r.below(1 << 31), nb, dm, y0, unif, "approx"), N)
 
 
 # ----------------------------------------------------------------------------- SPE: oracle + correspondence
@@ -488,13 +496,15 @@ def spe_oracle(f, pairs, nupc, perms):
                         "(the index vector is no longer a permutation)" % (t, firsts))
             if t < len(perms) and firsts != P[:nupc]:
                 return ("spe-local:perm", "iteration %d of the local strategy: first members %s are not the first nup entries %s "
-                        "of the permutation maintained by the shuffles (index vector corrupted by the overwrite of its second half)"
+                        "of the permutation maintained by the shuffles (index vector no longer that permutation, or the callback "
+                        "did not receive the items at those positions)"
                         % (t, firsts, P[:nupc]))
     return None
 
 
 def parse_pairs(s):
-    return [tuple(map(int, p.split("-"))) for p in s.split(",")] if s else []
+    """`a-b,c-d,...` (an index can be negative: -1 = the callback received something that is not an item of the range)"""
+    return [(int(m.group(1)), int(m.group(2))) for m in re.finditer(r"(-?\d+)-(-?\d+)(?:,|$)", s)] if s else []
 
 
 def judge_spe(ctx, bins, lines, label):
@@ -519,7 +529,7 @@ def judge_spe(ctx, bins, lines, label):
             results[n] = "abort"
             continue
         o = fields("x " + io)
-        ml = "spe " + " ".join("%s=%s" % (k, v) for k, v in f.items() if k not in ("mode", "y0", "seed", "k"))
+        ml = "spe " + " ".join("%s=%s" % (k, v) for k, v in f.items() if k not in ("mode", "y0", "seed", "k", "ids"))
         ml += " mode=%s perms=%s" % ("idx" if mode == "idx" else "full", o.get("perms", ""))
         if mode != "idx":
             ml += " y0=%s yobs=%s" % (o["y0"], o["y"])
@@ -547,6 +557,9 @@ def judge_spe(ctx, bins, lines, label):
                    "divides by zero and every coordinate of the embedding is NaN")
         elif o.get("fin") != "1":
             bad = ("spe:nonfinite", "spe_embedding returned non-finite coordinates")
+        elif int(o.get("badid", "0")) > 0:
+            bad = ("range:callback-received-non-item", "the distance callback was called %s times with something that is not an item "
+                   "of the iterator range (items %s): positions instead of begin[position]?" % (o["badid"], f.get("ids", "0..N-1")[:60]))
         elif int(o.get("oobidx", "0")) > 0:
             bad = ("spe:index-out-of-range", "the distance callback was called with an index outside 0..N-1")
         elif o.get("rows") != f["N"] or o.get("cols") != f["d"]:
@@ -649,7 +662,7 @@ def make_exact_cases(ctx, bins, r, count):
             continue
         tol, y0 = des
         dm = small_dm(r, N, den=4, lo=0, hi=16)
-        cases.append(spe_line(N, d, 0, k, nup, 1, tol, seed, nb, dm, y0, unif, "exact"))
+        cases.append(with_ids(r, spe_line(N, d, 0, k, nup, 1, tol, seed, nb, dm, y0, unif, "exact"), N))
     return cases
 
 
@@ -671,6 +684,37 @@ def gen_rp_case(r, exact):
         gauss = [Fraction(r.range(-4096, 4096), 1024) for _ in range(D * d)]
     return "rp N=%d D=%d d=%d mode=%s pts=%s shift=%s gauss=%s" % (
         N, D, d, "exact" if exact else "approx", fmt_rows(pts), ",".join(map(fr, shift)), ",".join(map(fr, gauss)))
+
+
+def far_tol(shift):
+    """declared tolerance of the large-offset translation pairs, relative at embedding level: offset * 2^-43.
+    Centring data of spread ~2^4 that sit at distance `offset` from the origin costs about offset * 2^-53 per entry; the worst
+    relative change measured on the clean tree is 2^-35.6 / 2^-30.9 / 2^-25.1 at offsets 2^20 / 2^24 / 2^30 (RP and FA,
+    VERIF_SEED 1..3), i.e. a margin of >= 2^11; a one-pass variance formula loses offset^2 * 2^-53 and is far above it"""
+    return max(abs(x) for x in shift) / Fraction(2 ** 43)
+
+
+def far_shift(r, D):
+    """translations by 2^20, 2^30 or 10^6 x spread (spread of the generated data: 16), random signs, non-integer jitter"""
+    base = r.choice([Fraction(2 ** 20), Fraction(2 ** 30), Fraction(16 * 10 ** 6)])
+    return [base * r.choice([1, -1]) + Fraction(r.range(-64, 64), 64) for _ in range(D)]
+
+
+def note_far(ctx, what, shift, e):
+    """worst observed relative change of an embedding under a large translation, per method and offset magnitude"""
+    key = "%s offset~2^%d" % (what, round(math.log2(max(abs(float(x)) for x in shift))))
+    d = ctx.extra.setdefault("far_translation_worst_log2", {})
+    d[key] = max(d.get(key, -9999.0), round(math.log2(e), 1))
+
+
+def gen_rp_far_case(r):
+    D = r.range(1, 9)
+    N = r.range(3, 17)
+    d = r.range(1, N - 1)
+    pts = [[Fraction(r.range(-512, 512), 64) for _ in range(D)] for _ in range(N)]
+    gauss = [Fraction(r.range(-4096, 4096), 1024) for _ in range(D * d)]
+    return "rp N=%d D=%d d=%d mode=far pts=%s shift=%s gauss=%s" % (
+        N, D, d, fmt_rows(pts), ",".join(map(fr, far_shift(r, D))), ",".join(map(fr, gauss)))
 
 
 def gen_rp_nat_case(r):
@@ -733,6 +777,11 @@ def judge_rp(ctx, bins, lines):
         y = y2 = None
         if o["fin"] == "1":
             y, y2 = rows(o["y"]), rows(o["y2"])
+        if int(o.get("badid", "0")) > 0:
+            ctx.stat("impl-oracle-reject")
+            ctx.fail("range:callback-received-non-item", "Random Projection called the feature callback %s times with something that is "
+                     "not an item of the iterator range" % o["badid"], case=line)
+            continue
         if o["fin"] != "1":
             bad = ("rp:nonfinite", "non-finite embedding / projection matrix (rand() stream %s)" % f.get("rs", "seeded")[:80])
         elif (int(o["rows"]), int(o["cols"])) != (N, d) or (int(o["prows"]), int(o["pcols"])) != (D, d):
@@ -742,10 +791,13 @@ def judge_rp(ctx, bins, lines):
         else:
             e = rel_err(y, y2)
             exact_expected = mode in ("exact", "nat")  # integer data, N a power of two, exactly representable shift
+            ttol = far_tol(shift) if mode == "far" else APPROX
+            if mode == "far" and e:
+                note_far(ctx, "rp", shift, e)
             if e == 0:
                 ctx.stat("translation-exact")
-            elif e is not None and e <= APPROX and not exact_expected:
-                ctx.stat("translation-approx")
+            elif e is not None and e <= ttol and not exact_expected:
+                ctx.stat("translation-approx" if mode != "far" else "translation-far-approx")
             else:
                 bad = ("rp:translation", "embedding changes under the translation %s (relative difference %s)" % (f["shift"], "2^%.1f" % math.log2(e) if e else e))
             mean, mean2 = [num(t) for t in o["mean"].split(",")], [num(t) for t in o["mean2"].split(",")]
@@ -810,6 +862,27 @@ def gen_fa_case(r, kind):
         ",".join(map(fr, shift)))
 
 
+def gen_fa_far_case(r, kind):
+    """far: natural initialisation, generic dyadic data, translated by a LARGE offset (approx translation pair);
+       emfar: the data themselves lie far from the origin, transcribed EM step against the exact model"""
+    D = r.range(1, 4)
+    d = r.range(1, 3)
+    if kind == "far":
+        N = r.range(D + 3, 20)
+        d = min(d, N - 1)
+        pts = [[Fraction(r.range(-512, 512), 64) for _ in range(D)] for _ in range(N)]
+        return "fa N=%d D=%d d=%d T=%d eps=%s mode=far srand=%d pts=%s shift=%s" % (
+            N, D, d, r.choice([1, 2, 5, 20]), r.choice(["1:-30", "1/1024"]), r.below(1 << 31), fmt_rows(pts),
+            ",".join(map(fr, far_shift(r, D))))
+    N = r.choice([8, 16])
+    d = min(d, N - 1)
+    off = far_shift(r, D)
+    pts = [[off[c] + Fraction(r.range(-512, 512), 64) for c in range(D)] for _ in range(N)]
+    a0 = [Fraction(r.range(1, 8) * r.choice([1, -1]), 8) for _ in range(D * d)]
+    return "fa N=%d D=%d d=%d T=%d eps=0 mode=emfar pts=%s shift=%s a0=%s" % (
+        N, D, d, r.range(1, 3), fmt_rows(pts), ",".join(map(fr, [-x for x in off])), ",".join(map(fr, a0)))
+
+
 def pow2(n):
     return n & (n - 1) == 0
 
@@ -820,7 +893,7 @@ def judge_fa(ctx, bins, lines):
     fs = [fields(l) for l in lines]
     impl = [None] * len(lines)
     for nat in (False, True):
-        sub = [i for i in range(len(lines)) if (fs[i]["mode"] == "nat") == nat]
+        sub = [i for i in range(len(lines)) if (fs[i]["mode"] in ("nat", "far")) == nat]
         outs = run_impl(ctx, bins.nat if nat else bins.streams, [lines[i] for i in sub])
         for i, o in zip(sub, outs):
             impl[i] = o
@@ -839,7 +912,7 @@ def judge_fa(ctx, bins, lines):
             ctx.stat("fa:nonfinite-skipped")
             continue
         mlines.append("fa N=%s D=%s d=%s T=%s eps=%s pts=%s a0=%s yobs=%s em=%d" % (
-            f["N"], f["D"], f["d"], f["T"], f["eps"], f["pts"], o["a0"], o["y"], 1 if f["mode"] == "em" else 0))
+            f["N"], f["D"], f["d"], f["T"], f["eps"], f["pts"], o["a0"], o["y"], 1 if f["mode"] in ("em", "emfar") else 0))
         keep.append((line, f, o))
     model = run_model(ctx, mlines)
     if model is None:
@@ -852,15 +925,21 @@ def judge_fa(ctx, bins, lines):
         m = fields("x " + mo)
         y, y2 = rows(o["y"]), rows(o["y2"])
         bad = None
-        if (int(o["rows"]), int(o["cols"])) != (N, d):
+        if int(o.get("badid", "0")) > 0:
+            bad = ("range:callback-received-non-item", "the feature callback was called %s times with something that is not an item of "
+                   "the iterator range" % o["badid"])
+        elif (int(o["rows"]), int(o["cols"])) != (N, d):
             bad = ("fa:shape", "embedding %sx%s for N=%d d=%d" % (o["rows"], o["cols"], N, d))
         else:
             e = rel_err(y, y2)
-            exact_expected = pow2(N)   # integer data and shifts: the centred doubles coincide bit for bit
+            far = mode in ("far", "emfar")
+            exact_expected = pow2(N) and not far   # integer data and shifts: the centred doubles coincide bit for bit
+            if far and e:
+                note_far(ctx, "fa:" + mode, [num(t) for t in f["shift"].split(",")], e)
             if e == 0:
                 ctx.stat("translation-exact")
-            elif e is not None and e <= APPROX and not exact_expected:
-                ctx.stat("translation-approx")
+            elif e is not None and e <= (far_tol([num(t) for t in f["shift"].split(",")]) if far else APPROX) and not exact_expected:
+                ctx.stat("translation-approx" if not far else "translation-far-approx")
             else:
                 bad = ("fa:translation", "embedding changes under the translation %s (relative difference %s)"
                        % (f["shift"], "2^%.1f" % math.log2(e) if e else e))
@@ -884,7 +963,7 @@ def judge_fa(ctx, bins, lines):
         if mode == "t0":
             ok = (v == "eq")
             ctx.stat("cmp-exact" if ok else "fidelity-mismatch")
-        elif mode == "em":
+        elif mode in ("em", "emfar"):
             ok = (v == "eq" or v.startswith("approx"))
             ctx.stat("cmp-approx" if ok else "fidelity-mismatch")
         if o.get("hasproj") != "0":
@@ -1058,6 +1137,7 @@ def stat_spe(ctx, bins, r, quick):
                 lines.append("speapi N=%d D=%d d=%d g=1 k=5 nup=%d T=%d tol=%s seed=%d srand=%d pts=%s" % (
                     N, len(pts[0]), d, nup, T, r.choice(["1:-30", "1:-20"]), r.below(1 << 31), r.below(1 << 31), fmt_rows(pts)))
                 meta.append((kind, pts, nup, T))
+    lines = [with_ids(r, l, int(fields(l)["N"])) for l in lines]
     outs = run_impl(ctx, bins.nat, lines)
     worst = 0.0
     nfail = 0
@@ -1075,6 +1155,10 @@ def stat_spe(ctx, bins, r, quick):
             continue
         if o["selfcalls"] != "0":
             ctx.fail("spe:self-pair", "SPE evaluated the distance of a point to itself %s times" % o["selfcalls"], case=line)
+            continue
+        if int(o.get("badid", "0")) > 0:
+            ctx.fail("range:callback-received-non-item", "SPE (global) called the distance callback %s times with something that is not "
+                     "an item of the iterator range" % o["badid"], case=line)
             continue
         s = global_stress(pts, rows(o["y"]))
         if not s < 1e-3 and nup < len(pts) // 2:
@@ -1119,6 +1203,7 @@ def stat_spe(ctx, bins, r, quick):
                 lines.append("speapi N=%d D=%d d=%d g=0 k=%d nup=%d T=%d tol=1:-30 seed=%d srand=%d pts=%s" % (
                     N, len(pts[0]), d, k, nup, T, r.below(1 << 31), r.below(1 << 31), fmt_rows(pts)))
                 meta.append((kind, pts, nup, T, nb))
+    lines = [with_ids(r, l, int(fields(l)["N"])) for l in lines]
     outs = run_impl(ctx, bins.nat, lines)
     stresses = {}
     nonfinite = 0
@@ -1129,6 +1214,10 @@ def stat_spe(ctx, bins, r, quick):
             ctx.fail("spe-local:abort-or-throw", "SPE (local) failed: " + io[:200], case=line)
             continue
         o = fields("x " + io)
+        if int(o.get("badid", "0")) > 0:
+            ctx.fail("range:callback-received-non-item", "SPE (local) called the distance callback %s times with something that is not "
+                     "an item of the iterator range" % o["badid"], case=line)
+            continue
         Y = rows(o["y"]) if o["fin"] == "1" else None
         big = Y is not None and diverged(pts, Y)
         if o["fin"] != "1" or big:
@@ -1240,7 +1329,7 @@ def coverage(ctx, bins, r, quick):
         l = "specov N=%d d=2 g=0 k=%d nup=%d nupc=%d T=%d tol=1:-20 seed=%d srand=%d np=%d nb=%s dm=%s" % (
             N, k, nup, nupc, T, r.below(1 << 31), r.below(1 << 31), T, ";".join(",".join(map(str, l)) for l in nb),
             ",".join(fr(x) for row in dm for x in row))
-        lines.append(l)
+        lines.append(with_ids(r, l, N))
     outs = run_impl(ctx, bins.streams, lines)
     rep = []
     for line, io in zip(lines, outs):
@@ -1430,12 +1519,17 @@ def correspond(ctx):
     rp_cases = [gen_rp_case(rr, True) for _ in range(120 if quick else 1200)] + \
                [gen_rp_case(rr, False) for _ in range(100 if quick else 1000)] + \
                [gen_rp_nat_case(rr) for _ in range(100 if quick else 1000)]
+    rp_cases += [gen_rp_far_case(rr) for _ in range(60 if quick else 600)]
+    rp_cases = [l if "big=1" in l else with_ids(rr, l, int(fields(l)["N"])) for l in rp_cases]
     judge_rp(ctx, bins, rp_cases)
     # D: Factor Analysis
     rr = r.fork()
     fa_cases = [gen_fa_case(rr, "t0") for _ in range(80 if quick else 600)] + \
                [gen_fa_case(rr, "em") for _ in range(80 if quick else 800)] + \
                [gen_fa_case(rr, "nat") for _ in range(80 if quick else 800)]
+    fa_cases += [gen_fa_far_case(rr, "far") for _ in range(60 if quick else 600)] + \
+                [gen_fa_far_case(rr, "emfar") for _ in range(40 if quick else 400)]
+    fa_cases = [with_ids(rr, l, int(fields(l)["N"])) for l in fa_cases]
     judge_fa(ctx, bins, fa_cases)
     random_hpp(ctx, bins, r.fork(), quick)
     ctx.log("C/D projection methods + random.hpp done")
